@@ -188,5 +188,21 @@ example : ∃ ma ml mb,
 (toy coding: float32 keeps the value mod 2³², float64 mod 2⁶⁴) -/
 example : quant toyCodingA .ascii 3 .double (2 ^ 32 + 1) ≠ quant toyCodingA .le 3 .double (2 ^ 32 + 1) := by decide
 
+/-! ## the two name-capture configurations (known findings, witnesses `c04.holds.w_name_before_group_witness`,
+`c04.holds.w_name_captured_by_group_witness`) are outside the composed theorems: the claim certificates reject them -/
+
+def exNameMesh (scalar : Bytes) : MeshVal Nat :=
+  ⟨.point, [0, 1], [⟨3, positionAttr, [[1, 2, 3], [4, 5, 6]]⟩, ⟨3, colorAttr, [[1, 0, 0], [0, 1, 0]]⟩, ⟨1, scalar, [[5], [7]]⟩], none⟩
+
+/-- scalar `a` (float) BEFORE `Color r g b` (double): no reader for Color is built -/
+example : claimCheck ⟨.le, [⟨nm "a", [nm "a"], .float⟩, ⟨colorAttr, [nm "r", nm "g", nm "b"], .double⟩,
+    ⟨positionAttr, [nm "x", nm "y", nm "z"], .float⟩], false⟩ (exNameMesh (nm "a")) = none := by decide
+
+/-- `Color red green blue` (float) and the unspecified scalar `alpha` (float): claimed together as one 4-vector -/
+example : claimCheck ⟨.le, [⟨positionAttr, [nm "x", nm "y", nm "z"], .float⟩,
+    ⟨colorAttr, [nm "red", nm "green", nm "blue"], .float⟩], true⟩ (exNameMesh (nm "alpha")) = none := by decide
+example : claimCheckA ⟨.ascii, [⟨positionAttr, [nm "x", nm "y", nm "z"], .float⟩,
+    ⟨colorAttr, [nm "red", nm "green", nm "blue"], .float⟩], true⟩ (exNameMesh (nm "alpha")) = none := by decide
+
 end C04
 end PolyVerif
